@@ -57,4 +57,24 @@ Proof.
     + change (eof_received (set_r_delayed _ (upd_nak _ s2))) with (is_some (r_fsize s1)). rewrite S2. exact He.
 Qed.
 
+(* ... and when the NAK timer has expired at that instant, the whole list of what is missing after
+   storing the new data is queued instead (and the timer restarted) *)
+Theorem immediate_expired_requests_all now offset data delay (s : rstate) :
+  r_phase s = RecvData -> r_nakproc s = Immediate delay -> eof_received s = false ->
+  snd (c_timeout_occurred now (t_nak (r_timer s))) = true ->
+  r_naks (pdu_filedata_acked now offset data s) = get_all_naks (store_file_data offset data s).
+Proof.
+  intros Hp Hn He Ht. unfold Recv.pdu_filedata_acked. rewrite Hp. cbn [rphase_eqb negb].
+  destruct (store_fields offset data s) as (S1 & S2 & S3 & S4 & S5 & S6).
+  set (s1 := store_file_data offset data s) in *. clearbody s1.
+  set (s2 := emit_ind (IFileSegmentRecv offset (N.of_nat (length data))) s1).
+  change (r_nakproc s2) with (r_nakproc s1). rewrite S1, Hn.
+  change (eof_received s2) with (is_some (r_fsize s1)). rewrite S2. fold (eof_received s). rewrite He.
+  change (r_timer s2) with (r_timer s1). rewrite S3.
+  unfold c_timeout_occurred in *. cbn [fst snd] in *. rewrite Ht.
+  rewrite check_finished_before_eof.
+  - reflexivity.
+  - change (eof_received (upd_nak _ (set_r_naks _ (upd_nak _ s2)))) with (is_some (r_fsize s1)). rewrite S2. exact He.
+Qed.
+
 End ImmediateP.
